@@ -143,6 +143,7 @@ class Armorable(metaclass=abc.ABCMeta):
         if m is None:  # pragma: no cover
             raise ValueError("Expected: ASCII-armored PGP data")
 
+        end = m.end()
         m = m.groupdict()
 
         if m['hashes'] is not None:
@@ -168,6 +169,13 @@ class Armorable(metaclass=abc.ABCMeta):
             m['crc'] = Header.bytes_to_int(base64.b64decode(m['crc'].encode()))
             if Armorable.crc24(m['body']) != m['crc']:
                 warnings.warn('Incorrect crc24', stacklevel=3)
+
+        # transferable keys may be concatenated (RFC 4880 11.1), also as armored text: the packets of every
+        # further key block continue the packet sequence of the first one
+        if m['magic'] is not None and m['magic'].endswith('KEY BLOCK') and m['body'] is not None:
+            for n in Armorable.__armor_regex.finditer(text, end):
+                if (n.group('magic') or '').endswith('KEY BLOCK'):
+                    m['body'] += Armorable.ascii_unarmor(n.group(0))['body']
 
         return m
 
